@@ -2159,7 +2159,7 @@ fn do_render_node<T: Write, D: TextDecorator>(
             pushed_style.unwind(renderer);
             Finished(None)
         }
-        Table(tab) => render_table_tree(renderer, tab, err_out)?,
+        Table(tab) => render_table_tree(renderer, tab, pushed_style, err_out)?,
         TableRow(row, false) => render_table_row(renderer, row, pushed_style, err_out),
         TableRow(row, true) => render_table_row_vert(renderer, row, pushed_style, err_out),
         TableBody(_) => unimplemented!("Unexpected TableBody while rendering"),
@@ -2209,6 +2209,7 @@ fn do_render_node<T: Write, D: TextDecorator>(
 fn render_table_tree<T: Write, D: TextDecorator>(
     renderer: &mut TextRenderer<D>,
     table: RenderTable,
+    pushed_style: PushedStyleInfo,
     _err_out: &mut T,
 ) -> render::Result<TreeMapResult<'static, TextRenderer<D>, RenderNode, Option<SubRenderer<D>>>> {
     /* Now lay out the table. */
@@ -2308,7 +2309,11 @@ fn render_table_tree<T: Write, D: TextDecorator>(
 
     Ok(TreeMapResult::PendingChildren {
         children: table.into_rows(col_widths, vert_row),
-        cons: Box::new(|_, _| Ok(Some(None))),
+        cons: Box::new(|renderer, _| {
+            // Undo the table's own style (colours etc.) once its rows are done.
+            pushed_style.unwind(renderer);
+            Ok(Some(None))
+        }),
         prefn: None,
         postfn: None,
     })
